@@ -38,15 +38,17 @@ type jcVec struct {
 	Fork   string `json:"fork"`
 	Static bool   `json:"static"`
 	Cls    int    `json:"cls"`
+	Height int    `json:"height"`
 }
 
 type jcExp struct {
-	Err     bool    `json:"err"`
-	Bytes   []int   `json:"bytes"`
-	Word    []int   `json:"word"`
-	Header  []int   `json:"header"`
-	Area    [][]int `json:"area"`
-	Outcome string  `json:"outcome"`
+	Err       bool    `json:"err"`
+	Bytes     []int   `json:"bytes"`
+	Word      []int   `json:"word"`
+	Header    []int   `json:"header"`
+	Area      [][]int `json:"area"`
+	Outcome   string  `json:"outcome"`
+	Underflow bool    `json:"underflow"`
 }
 
 type jcLine struct {
@@ -68,6 +70,9 @@ var bigVals = map[int]*big.Int{
 	1005: new(big.Int).Lsh(big.NewInt(1), 64),
 	1006: new(big.Int).Lsh(big.NewInt(1), 255),
 	1007: new(big.Int).Sub(new(big.Int).Lsh(big.NewInt(1), 256), big.NewInt(1)),
+	1009: new(big.Int).Lsh(big.NewInt(1), 16),
+	1010: new(big.Int).Lsh(big.NewInt(1), 20),
+	1011: new(big.Int).Lsh(big.NewInt(1), 24),
 }
 
 func opnd(code int) *big.Int {
@@ -209,6 +214,7 @@ func (r *jcRunner) vv(v jcVec, x jcExp) {
 	want := fmt.Sprintf("0:[%s,] ", hex.EncodeToString(toBytes(x.Bytes)))
 	if res.Err != nil {
 		r.miss("jc.value", "VVJNAL offset %d width %d on a valid field failed: %v", v.Off, v.W, res.Err)
+		r.miss("jc.invisible", "VVJNAL with well-formed operands (offset %d width %d) halted the frame: %v", v.Off, v.W, res.Err)
 		return
 	}
 	if got != want {
@@ -253,6 +259,7 @@ func (r *jcRunner) vr(v jcVec, x jcExp) {
 	}
 	if res.Err != nil {
 		r.miss("jc.value", "%s failed on a well-formed string: %v", desc, res.Err)
+		r.miss("jc.invisible", "%s: well-formed operands, yet the instruction halted the frame: %v", desc, res.Err)
 		return
 	}
 	want := fmt.Sprintf("0:[%s,] ", hex.EncodeToString(toBytes(x.Bytes)))
@@ -521,6 +528,28 @@ func (r *jcRunner) vrbig(v jcVec) {
 	}
 }
 
+// stk: the opcode with `height` words on the stack (all zero)
+func (r *jcRunner) stk(v jcVec, x jcExp) {
+	a := evmx.NewAsm()
+	for i := 0; i < v.Height; i++ {
+		a.Push(0)
+	}
+	a.Op(vm.OpCode(0xe0 + v.Op))
+	_, res := jcExec("London", tail(a), nil, 1_000_000, nil)
+	desc := fmt.Sprintf("%s with %d words on the stack", vm.OpCode(0xe0+v.Op), v.Height)
+	if res.Panic != "" {
+		r.miss("jc.panic", "%s panicked: %s", desc, res.Panic)
+		return
+	}
+	under := res.Err != nil && strings.HasPrefix(res.Err.Error(), "stack underflow")
+	if x.Underflow && !under {
+		r.miss("jc.halt", "%s: fewer operands than the instruction takes, but no stack underflow (err = %v)", desc, res.Err)
+	}
+	if !x.Underflow && under {
+		r.miss("jc.halt", "%s: enough operands, yet a stack underflow was reported", desc)
+	}
+}
+
 type jcReport struct {
 	Vectors    int                     `json:"histories"`
 	Nontrivial int                     `json:"nontrivial"`
@@ -553,6 +582,8 @@ func codecCmd(args []string) int {
 			r.inv(l.V)
 		case "vrbig":
 			r.vrbig(l.V)
+		case "stk":
+			r.stk(l.V, l.E)
 		}
 	}
 	if *one != "" {
